@@ -139,6 +139,13 @@ func checkC14(r *core.Run, p *core.Program) {
 	}
 	r.Count("C14 carrier fields", len(carriers))
 
+	// usage accounting: the counters that the guards compare are advanced / released at exactly the required places
+	r.Rule("C14.usage-accounting", "the usage counters compared with the limits are maintained exactly: container depth is incremented when a container begins and decremented on every accepted container end (no early return skips it), the object counter is incremented once per object, the array byte total adds each chunk's BYTE count (element count converted by element size) and is zeroed when an array begins, full arrays are measured by len(data); the Context primitives involved equal the reference specification.")
+	checkCtxPrimitives(r, p, a, "C14.usage-accounting", "beginContainer", "EndContainer", "endContainerLike", "NotifyNewObject", "markUpcomingChunkByteCount",
+		"validateArrayTotalByteCount", "BeginChunkAnyType", "BeginChunkString", "beginArray", "MarkObject", "ValidateIdentifier",
+		"ValidateLengthAnyType", "ValidateLengthString", "ValidateLengthRID")
+	checkC14Accounting(r, p, a)
+
 	checkC14Bytes(r, p, a)
 }
 
@@ -405,4 +412,93 @@ func takesReader(f *types.Func) bool {
 		}
 	}
 	return false
+}
+
+// checkC14Accounting: what is measured is the right quantity.
+func checkC14Accounting(r *core.Run, p *core.Program, a *analysis) {
+	pkg := p.Pkg("rules")
+	info := pkg.TypesInfo
+	// every ValidateLength* call measures len(data) in bytes
+	n := 0
+	for _, f := range funcsOf(pkg) {
+		inspectCalls(info, f.Decl.Body, func(call *ast.CallExpr, cal *types.Func) {
+			if cal == nil || recvNamed(cal) == nil || recvNamed(cal).Obj().Name() != "Context" || len(call.Args) != 1 {
+				return
+			}
+			switch cal.Name() {
+			case "ValidateLengthAnyType", "ValidateLengthString", "ValidateLengthRID":
+			default:
+				return
+			}
+			n++
+			arg := stripConv(info, call.Args[0])
+			ok := false
+			if c, isCall := arg.(*ast.CallExpr); isCall {
+				if id, isId := c.Fun.(*ast.Ident); isId && id.Name == "len" {
+					ok = true
+				}
+			}
+			r.Check("C14.usage-accounting", f.Name()+"|"+cal.Name()+" measures len(data)", call.Pos(), ok, "the array size compared with MaxArraySizeBytes is "+exprStr(call.Args[0])+", not the byte length of the data")
+		})
+	}
+	r.Floor("C14.usage-accounting", "full-array length checks", n, 8)
+	// every beginArray call passes the configured array limit
+	if ba := p.LookupFunc("rules", "Context.beginArray"); ba == nil {
+		r.Undecided("C14.usage-accounting", "rules.Context.beginArray")
+	} else {
+		cfgT := p.LookupType("configuration", "RuleConfiguration")
+		m := 0
+		for _, f := range funcsOf(pkg) {
+			inspectCalls(info, f.Decl.Body, func(call *ast.CallExpr, cal *types.Func) {
+				if cal != ba || len(call.Args) < 4 {
+					return
+				}
+				m++
+				lim := limitOf(info, call.Args[3], cfgT.Type().(*types.Named), nil)
+				r.Check("C14.usage-accounting", f.Name()+"|beginArray limit", call.Pos(), lim == "MaxArraySizeBytes", "a chunked array is begun with limit "+exprStr(call.Args[3])+" instead of config.Rules.MaxArraySizeBytes")
+			})
+		}
+		r.Floor("C14.usage-accounting", "beginArray call sites", m, 5)
+	}
+	// document size: both decoders
+	e := &effectCtx{a: a, p: p}
+	if f := findFn(p, "cbe", "Reader.markBytesRead"); f == nil {
+		r.Undecided("C14.usage-accounting", "cbe.Reader.markBytesRead")
+	} else {
+		got := e.summarize(f.Obj)
+		want := "set($_this.bytesRead+=uint64($byteCount)); if($_this.bytesRead>$_this.config.Rules.MaxDocumentSizeBytes){reject}"
+		r.Check("C14.usage-accounting", "cbe.Reader.markBytesRead", f.Decl.Pos(), got == want, "markBytesRead does `"+got+"`; required `"+want+"`")
+	}
+	if f := findFn(p, "cte", "Decoder.markBytesRead"); f == nil {
+		r.Undecided("C14.usage-accounting", "cte.Decoder.markBytesRead")
+	} else {
+		got := e.summarize(f.Obj)
+		want := "if(?pure:conv($byteCount)>$_this.config.Rules.MaxDocumentSizeBytes){reject}"
+		r.Check("C14.usage-accounting", "cte.Decoder.markBytesRead", f.Decl.Pos(), got == want, "markBytesRead does `"+got+"`; required `"+want+"`")
+	}
+	for _, name := range []string{"Decode", "DecodeDocument"} {
+		f := findFn(p, "cte", "Decoder."+name)
+		if f == nil {
+			r.Undecided("C14.usage-accounting", "cte.Decoder."+name)
+			continue
+		}
+		cinfo := f.Pkg.TypesInfo
+		markPos, parsePos := token.NoPos, token.NoPos
+		sized := false
+		inspectCalls(cinfo, f.Decl.Body, func(call *ast.CallExpr, cal *types.Func) {
+			if cal == nil {
+				return
+			}
+			if cal.Name() == "markBytesRead" && len(call.Args) == 1 {
+				markPos = call.Pos()
+				s := exprStr(call.Args[0])
+				sized = s == "len(document)" || s == "buf.Len()"
+			}
+			if cal.Name() == "ParseDocument" {
+				parsePos = call.Pos()
+			}
+		})
+		r.Check("C14.usage-accounting", "cte.Decoder."+name+"|size-checked-before-parse", f.Decl.Pos(), markPos.IsValid() && parsePos.IsValid() && markPos < parsePos && sized,
+			"the whole document's length must be checked against MaxDocumentSizeBytes before parsing")
+	}
 }
